@@ -2,6 +2,7 @@ import PyTrie.Model.HexWorld
 import PyTrie.Model.HexTrav
 import PyTrie.Model.HexDb
 import PyTrie.Model.Iter
+import PyTrie.Model.HexRaw
 /-! Line-protocol front end for the hexary-trie model (commands `hx.*`). One reply line per
     command. Byte strings are lower-case hex (`-` = empty), nibble paths one hex digit per nibble
     (`-` = empty), the batch trie is addressed as `b`, other tries by number. -/
@@ -240,6 +241,24 @@ def step (st : St) (cmd : String) (args : List String) : St × String :=
           | .value v => s!"v {toHex v}"
           | .badProof => "exn BadTrieProof"
           | .other => "exn Other")
+    | _, _ => bad
+  -- raw level: `set`/`delete` of a non-pruning trie on the current database, statement-by-statement
+  -- transcription over raw nodes; prints the new root and the database entries added (state unchanged)
+  | "rawop", [r, k, v] =>
+    match ofHex r, ofHex k with
+    | some r, some k =>
+      let val : Option (Option Bytes) := if v = "none" then some none else (ofHex v).map some
+      match val with
+      | none => bad
+      | some val =>
+        (st, match HexRaw.rawOp keccak w.base r k val with
+          | .ok (newRoot, st') =>
+            let added := st'.db.filter (fun e => !(w.base.any (fun o => o.1 == e.1)))
+            let ded := added.foldl (fun acc e => if acc.any (fun x => x.1 == e.1) then acc else acc ++ [e]) []
+            s!"root={toHex newRoot} added={joinOr ((sortPairs ded).map fun e => s!"{toHex e.1}:{toHex e.2}") ","}"
+          | .error (.missing h) => s!"exn missing {toHex h}"
+          | .error .invalid => "exn invalid"
+          | .error .fuel => "exn fuel")
     | _, _ => bad
   | "rlpdec", [b] =>
     match ofHex b with
